@@ -8,7 +8,31 @@ def want(case, sig):
     return sig.startswith("decode/") and case.get("aspect") == "size"
 
 
+def fold_sub(v, pid, tier, seed, keep, why):
+    """run property `pid`'s check as a sub-step and fold the violations whose
+    signature satisfies keep() into this verdict"""
+    import importlib
+    import vlib
+    sub = vlib.SubVerdict(pid, tier, seed)
+    importlib.import_module("checks." + pid.lower()).run(sub, tier, seed)
+    n = 0
+    for sig, desc, path in sub.violations:
+        if keep(sig):
+            n += 1
+            v.violation("via-%s/%s" % (pid, sig), "[%s] %s" % (why, desc), {"see": path})
+    v.part("via_" + pid, evaluations=sub.cov.get("evaluations"), folded_violations=n,
+           states=sub.cov.get("states"), transitions=sub.cov.get("transitions"))
+    v.add(evaluations=sub.cov.get("evaluations") or 0)
+
+
 def run(v, tier, seed):
+    # header values near the type limits (products beyond 31/32 bits): decided by
+    # GroupIter.tla's boundary vectors (size_bytes feeds end()/back()), and the
+    # trait-level size_bytes(counts..., total_data) formula by Traits.tla
+    fold_sub(v, "C12", tier, seed, lambda s: "/from=end/" in s or "size" in s,
+             "flat group size_bytes with boundary header values (GroupIter.tla huge-header vectors)")
+    fold_sub(v, "C18", tier, seed, lambda s: "size_bytes" in s,
+             "trait-level size_bytes (Traits.tla)")
     return run_view_check(v, tier, seed, want, [viewpipe.view_results, viewpipe.header_results],
                           "size_bytes of message / every group / entry / data member vs the length of the SBE image part",
                           "SizesAgree + ImageSizes model-checked; run-time size_bytes of every view compared with the image")
